@@ -72,6 +72,13 @@ var Local = []string{"ping", "quit", "select", "info", "time", "hotkey"}
 
 // Supported reports whether name (any case) is in the documented supported set.
 func Supported(name string) bool {
+	// command names are ASCII: a name with any other byte is not a supported name, whatever Unicode case folding makes of it
+	// (strings.ToLower maps the Kelvin sign U+212A to "k" and U+0130 to "i")
+	for i := 0; i < len(name); i++ {
+		if name[i] >= 0x80 {
+			return false
+		}
+	}
 	n := strings.ToLower(name)
 	for _, c := range Forwarded {
 		if c == n {
